@@ -436,7 +436,7 @@ PROPS["C10"] = {
     "min_evals": {"quick": 300, "thorough": 20000},
     "legs": [
         Leg("filter", "c10", "^TestFilter$", checks=(120, 8000), shards=(4, 16), tests=["filter"]),
-        Leg("long-stall", "c10", "^TestLongStall$", engine="sched", checks=(1, 3), shards=(2, 4), tests=["long-stall"]),
+        Leg("long-stall", "c10", "^TestLongStall$", engine="sched", checks=(1, 3), shards=(4, 6), tests=["long-stall"]),
         Leg("midnight", "c10", "^TestMidnight$", engine="sched", checks=(1, 3), shards=(2, 4), tests=["midnight"], replay_attempts=2),
         Leg("program", "c10", "^TestProgram$", engine="process", app=["rtcmfilter"], checks=(40, 1500), shards=(8, 16), tests=["program"]),
         Leg("filter-race", "c10", "^TestFilter$", engine="sched", race=True, checks=(60, 3000), shards=(2, 16), tests=["filter"]),
